@@ -29,7 +29,8 @@ ASSUMPTIONS = [
     "is 'the first error delivered to the simulator'",
     "the reported error is matched by identity or through __cause__ (handler errors and 'abort' "
     "events are wrapped in EdzedCircuitError by design)",
-    "when several supporting tasks fail, any of them may be reported (not generated: one S only)",
+    "several failing supporting tasks are generated only when one of them is the first both in "
+    "time and in argument order (coroutine #0 fails, a later one raises while being cancelled)",
     "'only reported or logged' = the simulation is still running and serving events afterwards",
 ]
 REQUIRED = {'cases_with_error_compared': 100, 'first_error_kept': 15, 'harmless_survived': 50,
@@ -107,6 +108,12 @@ def run_case(case, ctx):
                 edzed.Not(f"e{i}", on_output=edzed.Event(
                     '_ctrl', 'abort', efilter=edzed.not_from_undef)).connect(inp)
                 objs[i] = inp
+            elif kind == 'EI':
+                def failing(value, i=i):
+                    fired.append(('E', i))
+                    raise SrcError(f"EI{i}")
+                edzed.OutputFunc(f"e{i}", func=failing, on_error=edzed.Event.abort())
+                objs[i] = edzed.Input(f"eii{i}", initdef=0, on_output=edzed.Event(f"e{i}"))
             elif kind == 'HC':
                 # a combinational block's function sends an event to a failing handler and
                 # swallows the exception: the error is delivered by abort() from inside the
@@ -160,6 +167,9 @@ def run_case(case, ctx):
                         raise exc
                 objs[i] = IP(f"i{i}")
         objs['pinger'] = probes.make_probe('pinger', set(), hist, {'init_regular': 'set'})
+        # a block with asynchronous clean-up: the simulation task has to await during the stop
+        probes.make_probe('acl', {'astop'}, hist, {'init_regular': 'set', 'stop_async': ('ok', 0.5)},
+                          stop_timeout=3)
         if case.get('harmless') == 'noparam':
             objs['cnt'] = edzed.Counter('cnt')
         # harmless fault carriers
@@ -315,6 +325,16 @@ def run_case(case, ctx):
                         fired.append(('S', i))
                         raise exc
                     supporting.append(failing())
+                elif kind == 'SC':
+                    async def cancel_raiser(i=i):
+                        try:
+                            await asyncio.sleep(100)
+                        except asyncio.CancelledError:
+                            exc = SrcError(f"SC{i}")
+                            excs[i] = exc
+                            fired.append(('SC', i))
+                            raise exc
+                    supporting.append(cancel_raiser())
                 elif kind == 'R':
                     async def returning(i=i, t=t):
                         await asyncio.sleep(t)
@@ -487,6 +507,16 @@ def gen(ctx):
     for a in kindsR + ['Z']:
         cases.append({'mode': 'R', 'actions': [['Z', 1], [a, 1]]})
         cases.append({'mode': 'R', 'actions': [[a, 1], ['Z', 2]]})
+    # abort requested from inside the simulation task during the synchronous initialisation
+    cases.append({'mode': 'R', 'actions': [['EI', 0]]})
+    cases.append({'mode': 'U', 'actions': [['EI', 0]]})
+    for a in kindsR:
+        cases.append({'mode': 'R', 'actions': [['EI', 0], [a, 1]]})
+    # two failing supporting tasks: coroutine #0 fails, coroutine #1 raises while it is being
+    # cancelled - #0 is the first one both in time and in argument order
+    cases.append({'mode': 'U', 'actions': [['S', 1], ['SC', 0]]})
+    cases.append({'mode': 'U', 'actions': [['S', 1], ['SC', 0], ['SC', 0]]})
+    cases.append({'mode': 'U', 'actions': [['S', 1], ['SC', 0], ['R', 2]]})
     for inner in ('EC', 'HC'):
         cases.append({'mode': 'R', 'actions': [[inner, 1]]})
         cases.append({'mode': 'U', 'actions': [[inner, 1]]})
